@@ -390,4 +390,58 @@ MUTANTS = {
                (L, "    def _init_state(self) -> None:\n        self._lexdata = \"\"", "    def _init_state(self) -> None:\n        global _CURRENT_FILE\n        _CURRENT_FILE = None\n        self._lexdata = \"\""),
                (L, "##\n## Reserved keywords\n##", "_CURRENT_FILE = None\n\n##\n## Reserved keywords\n##")],
     ),
+    "C11-file-from-lexer": dict(
+        what="Coord.file read from the lexer state when the node is built (after look-ahead)",
+        checks=["C11"],
+        edits=[(P, "        filename = tok.filename if tok.filename is not None else self.clex.filename\n", "        filename = self.clex.filename\n")],
+    ),
+    "C11-column-zero-based": dict(
+        what="token columns are 0-based",
+        checks=["C11", "C09"],
+        edits=[(L, "        column = pos - self._line_start + 1\n        tok = Token(", "        column = pos - self._line_start\n        tok = Token(")],
+    ),
+    "C11-field-coord-dot": dict(
+        what="the member-name ID of a.b gets the coordinate of the '.' token",
+        checks=["C11"],
+        edits=[(P, "                field = c_ast.ID(name_tok.value, self._tok_coord(name_tok))", "                field = c_ast.ID(name_tok.value, self._tok_coord(op_tok))")],
+    ),
+    "C11-if-coord-else": dict(
+        equivalent=True,  # still a token inside the construct / no observable change: the property allows it
+        what="an if-else statement takes the coordinate of the token after 'else'",
+        checks=["C11"],
+        edits=[(P, "                if self._accept(\"ELSE\"):\n                    else_stmt = self._parse_pragmacomp_or_statement()\n                    return c_ast.If(cond, then_stmt, else_stmt, self._tok_coord(tok))", "                if self._accept(\"ELSE\"):\n                    else_stmt = self._parse_pragmacomp_or_statement()\n                    return c_ast.If(cond, then_stmt, else_stmt, else_stmt.coord)")],
+    ),
+    "C11-cast-coord-operand": dict(
+        equivalent=True,  # still a token inside the construct / no observable change: the property allows it
+        what="a Cast node takes the coordinate of its operand instead of the '(' that opens it",
+        checks=["C11"],
+        edits=[(P, "                return c_ast.Cast(typ, expr, self._tok_coord(lparen_tok))", "                return c_ast.Cast(typ, expr, expr.coord)")],
+    ),
+    "C11-binop-coord-right": dict(
+        equivalent=True,  # still a token inside the construct / no observable change: the property allows it
+        what="BinaryOp nodes take the coordinate of their right operand",
+        checks=["C11"],
+        edits=[(P, "            lhs = c_ast.BinaryOp(op, lhs, rhs, lhs.coord)", "            lhs = c_ast.BinaryOp(op, lhs, rhs, rhs.coord)")],
+    ),
+    "C11-lexer-error-column": dict(
+        what="illegal-character errors report the column after the character",
+        checks=["C11"],
+        edits=[(L, "    def _error(self, msg: str, pos: int) -> None:\n        column = pos - self._line_start + 1", "    def _error(self, msg: str, pos: int) -> None:\n        column = pos - self._line_start + 2")],
+    ),
+    "C11-parse-error-prev-token": dict(
+        what="'before: X' parse errors are located at the line of X but column 1",
+        checks=["C11"],
+        edits=[(P, "        if tok.type != token_type:\n            self._parse_error(f\"before: {tok.value}\", self._tok_coord(tok))", "        if tok.type != token_type:\n            self._parse_error(f\"before: {tok.value}\", self._coord(tok.lineno, 1))")],
+    ),
+    "C11-decl-coord-none-for-arrays": dict(
+        what="array declarators lose their coordinate (ArrayDecl built without coord) so Decl.coord is None",
+        checks=["C11"],
+        edits=[(P, "            return c_ast.ArrayDecl(\n                type=base_type, dim=dim, dim_quals=dim_quals, coord=coord\n            )", "            return c_ast.ArrayDecl(\n                type=base_type, dim=dim, dim_quals=dim_quals, coord=None\n            )")],
+    ),
+    "C11-line-after-pragma": dict(
+        equivalent=True,  # still a token inside the construct / no observable change: the property allows it
+        what="a #pragma line without text does not count its newline",
+        checks=["C11", "C09"],
+        edits=[(L, "        if pos > start:\n            toks.append(self._make_token(\"PPPRAGMASTR\", text[start:pos], start))\n        if pos < n and text[pos] == \"\\n\":\n            self._lineno += 1", "        if pos > start:\n            toks.append(self._make_token(\"PPPRAGMASTR\", text[start:pos], start))\n        if pos < n and text[pos] == \"\\n\" and pos > start:\n            self._lineno += 1")],
+    ),
 }
